@@ -335,3 +335,47 @@ PROPS.update({
                 level_text="Coq theorems: ObservableVector's and the transaction's mutators leave and return exactly what the plain-list operation does; insert/set/remove panic exactly when out of range and a panicking call has no effect; for_each/entries never panics, hands every original element to the closure once in order with its current index, and leaves the decisions' results followed by the untouched rest (cursor invariant). Tied to vector.rs/entry.rs/transaction.rs by exhaustive decision sequences and all indices 0..len+2, compared with a plain Vec in the harness.",
                 level_note="Trusted: as C05."),
 })
+
+
+# ---------------------------------------------------------------- C16 async flavour / C19 async
+AHEADS = ("unique_async", "shared_async", "guard_async")
+
+
+def c16_streams(tier, rng):
+    q = tier == "quick"
+    ml = 2 if q else 3
+    n = 4000 if q else 150000
+    orc = {"spec", "wake"}
+    return [
+        Stream("exhaustive", "obs", gens.obs_exhaustive(ml, heads=AHEADS, counts=False), obs_nontriv, True,
+               "the C01-C03 exhaustive histories (<= %d calls over the 21-call alphabet without the count functions) on Observable/SharedObservable/write guards created with the async lock, every future polled once by a hand-rolled executor (WOULDBLOCK if it does not complete)" % ml,
+               obs_hist, oracles=orc),
+        Stream("random", "obs", gens.obs_random(rng, n, heads=AHEADS, counts=False), obs_nontriv, False,
+               "%d seeded random histories of 10..40 calls on the async flavour" % n, obs_hist, oracles=orc),
+    ]
+
+
+_c19_sync = PROPS["C19"]["streams"]
+
+
+def c19_streams(tier, rng):
+    q = tier == "quick"
+    st = _c19_sync(tier, rng)
+    n = 2000 if q else 50000
+    st.append(Stream("async", "obs", gens.obs_exhaustive(2 if q else 3, heads=AHEADS) + gens.obs_random(rng, n, heads=AHEADS),
+                     obs_nontriv, False,
+                     "the same histories (count functions included) on the async-lock flavour", obs_hist, oracles={"spec"}))
+    return st
+
+
+PROPS["C19"]["streams"] = c19_streams
+PROPS["C19"]["strength"] = "full for the default lock flavour; async flavour: known finding async_subscriber_double_count"
+PROPS["C19"]["level_note"] += " Known finding F8: with the async lock every subscriber owns two references, so subscriber_count/strong_count count each subscriber twice (C16_async_counts_refuted); reported as KNOWN-FINDING."
+PROPS["C16"] = dict(
+    streams=c16_streams,
+    trusted=OBS_TRUST + ["tokio::sync::RwLock modelled as a FIFO permit semaphore (batch_semaphore.rs); not verified",
+                         "hand-rolled single-poll executor in the harness"],
+    assumptions=["no guard is held across another call in the histories run against the crate (guarded histories: model only)"],
+    strength="partial: equivalence with the default flavour at operation granularity for unguarded histories; the lock itself is modelled, guarded histories and thread schedules of the async flavour are not forced",
+    level_text="Coq theorems: except for the count functions the async-flavour model is the default-flavour model call by call, hence refines the same specification (C01-C03 transfer); in the permit-semaphore model of tokio's RwLock an acquire with nothing held or queued succeeds at once, and a queued writer is woken when the holders release. Tied to the crate by running the C01-C03 histories on the async API with every future polled once, against the model and against the specification oracle.",
+    level_note="PARTIAL. Trusted: as C01, plus tokio's RwLock as a permit semaphore. The count functions differ (F8, see C19).")
